@@ -54,7 +54,12 @@ NONPRINCIPAL = {'cbrt': 'math.cbrt returns the real cube root of a negative numb
 SLOT_ALIAS = {'power': 'pow', 'ln': 'log', 'log': 'log', 'fac': 'factorial', 'factorial': 'factorial',
               '_nthroot': 'nthroot', '_ei': 'ei', '_e1': 'e1', '_zeta': 'zeta', '_zeta_int': 'zeta',
               '_erf': 'erf', '_erfc': 'erfc'}
-CUT_FUNCS = ('acos', 'asin')
+# functions whose complex fallback is entered ON a branch cut for ordinary (+0.0) arguments, with the axis
+# of the cut and the side condition under which mp's value needs the NEGATIVE zero
+REQUIRED_SLOTS = ('sqrt', 'exp', 'log', 'power', 'cos', 'sin', 'tan', 'acos', 'asin', 'atan', 'cosh', 'sinh',
+                  'tanh', 'acosh', 'asinh', 'atanh', 'cbrt', 'cospi', 'sinpi')
+CUT_FUNCS = {'acos': 'real', 'asin': 'real', 'atanh': 'real', 'atan': 'imag', 'asinh': 'imag'}
+NEG_ZERO_SIDE = {'real': '%s.real > 0', 'imag': '%s.imag < 0'}
 # math2 bindings that are not elementary functions (outside the scope of the property's last clause;
 # their pairing is a hand-written real/complex algorithm, not a math/cmath sibling pair)
 NOT_ELEMENTARY = {'gamma': 'special function', 'rgamma': 'special function', 'digamma': 'special function',
@@ -259,6 +264,25 @@ def canon_body(node, params):
 def quadrant_table(f):
     """{n: (sign, 'sin'|'cos')} from `if n == k: return [-]math.fn(r)` statements of a *pi helper"""
     tab = {}
+
+    def entry(v):
+        sign = 1
+        if isinstance(v, ast.UnaryOp) and isinstance(v.op, ast.USub):
+            sign = -1
+            v = v.operand
+        if isinstance(v, ast.Call) and isinstance(v.func, ast.Attribute) and \
+                isinstance(v.func.value, ast.Name) and v.func.value.id in ('math', 'cmath'):
+            return (sign, v.func.attr, v.func.value.id)
+        return None
+    # the last quadrant may be the unconditional final return
+    last = f.node.body[-1] if f.node.body else None
+    if isinstance(last, ast.Return) and entry(last.value):
+        seen = [st.test.comparators[0].value for st in f.node.body
+                if isinstance(st, ast.If) and isinstance(st.test, ast.Compare) and len(st.test.ops) == 1 and
+                isinstance(st.test.ops[0], ast.Eq) and isinstance(st.test.comparators[0], ast.Constant)]
+        rest = [k for k in range(4) if k not in seen]
+        if len(rest) == 1:
+            tab[rest[0]] = entry(last.value)
     for st in f.node.body:
         if isinstance(st, ast.If) and isinstance(st.test, ast.Compare) and \
                 len(st.test.ops) == 1 and isinstance(st.test.ops[0], ast.Eq) and \
@@ -315,12 +339,56 @@ def check_bindings(run, ix):
         # ---- F-R6 branch cut --------------------------------------------------------------
         for kind, what in calts:
             if kind == 'cmath' and what in CUT_FUNCS:
-                run.fail(F('F-R6', MATH2, name, st, 'complex fallback is the bare cmath.%s: for a real '
-                           'argument x > 1 it is entered with imaginary part +0.0 and returns the conjugate '
-                           'of mp.%s(x)' % (what, what)))
+                axis = CUT_FUNCS[what]
+                run.fail(F('F-R6', MATH2, name, st, 'complex fallback is the bare cmath.%s: %s and returns the value '
+                           'from the other side of the cut than mp.%s' % (what, (
+                               'for a real argument x > 1 it is entered with imaginary part +0.0' if axis == 'real' else
+                               'for an argument -iy, y > 1, it is entered with real part +0.0'), what)))
             elif name in CUT_FUNCS:
-                run.ok('F-R6', '%s: complex fallback is not the bare cmath function' % name)
+                why = cut_helper_problem(cexp, CUT_FUNCS[name], m2)
+                if why:
+                    run.fail(F('F-R6', MATH2, name, st, why))
+                else:
+                    run.ok('F-R6', '%s: argument normalised onto mp\'s side of the %s-axis cut' % (name, CUT_FUNCS[name]))
     return binds
+
+
+def cut_helper_problem(cexp, axis, m2):
+    """the complex fallback is cmath.f(helper(z)); the helper rewrites only a zero part, and gives it the
+    negative sign exactly on the side where mp continues from the other side than cmath's +0.0 default:
+    real axis: x > 1 (mp continues from below); imaginary axis: y < -1 (mp continues from the left)"""
+    if not isinstance(cexp, ast.Lambda):
+        return None
+    b = cexp.body
+    if not (isinstance(b, ast.Call) and len(b.args) == 1 and isinstance(b.args[0], ast.Call) and
+            isinstance(b.args[0].func, ast.Name)):
+        return 'complex fallback is not cmath.f(<cut helper>(z))'
+    h = [f for f in m2.m.funcs.values() if f.name == b.args[0].func.id and f.parent is None]
+    if not h:
+        return 'cut helper %s not found' % b.args[0].func.id
+    h = h[0]
+    p = h.params[0]
+    zero_part = 'imag' if axis == 'real' else 'real'
+    neg = pos = None
+    for r in _walk_own(h.node):
+        if not (isinstance(r, ast.Return) and isinstance(r.value, ast.Call) and norm(r.value.func) == 'complex'):
+            continue
+        z = r.value.args[1] if axis == 'real' else r.value.args[0]
+        keep = r.value.args[0] if axis == 'real' else r.value.args[1]
+        if norm(keep) != '%s.%s' % (p, 'real' if axis == 'real' else 'imag'):
+            return 'helper %s rewrites the %s part on a cut that lies on the %s axis' % (h.name, axis, axis)
+        if isinstance(z, ast.UnaryOp) and isinstance(z.op, ast.USub):
+            neg = r
+        else:
+            pos = r
+    if neg is None or pos is None:
+        return 'helper %s does not choose between -0.0 and +0.0 for the zero %s part' % (h.name, zero_part)
+    par = neg._parent
+    want = NEG_ZERO_SIDE[axis] % p
+    if not (isinstance(par, ast.If) and neg in par.body and norm(par.test) == want):
+        return ('helper %s gives the zero %s part the negative sign under `%s`; mp\'s side of the cut needs it '
+                'exactly under `%s`' % (h.name, zero_part, norm(par.test) if isinstance(par, ast.If) else '?', want))
+    return None
 
 
 def classify_real(kind, what, m2):
@@ -459,9 +527,13 @@ def helper_preserves_value(f):
         v = r.value
         if isinstance(v, ast.Name) and v.id == p:
             continue
-        if isinstance(v, ast.Call) and norm(v.func) == 'complex' and len(v.args) == 2 and \
-                norm(v.args[0]) == p + '.real':
-            z = v.args[1]
+        part = None
+        if isinstance(v, ast.Call) and norm(v.func) == 'complex' and len(v.args) == 2:
+            if norm(v.args[0]) == p + '.real':
+                part, z = 'imag', v.args[1]
+            elif norm(v.args[1]) == p + '.imag':
+                part, z = 'real', v.args[0]
+        if part:
             if isinstance(z, ast.UnaryOp) and isinstance(z.op, (ast.USub, ast.UAdd)):
                 z = z.operand
             if isinstance(z, ast.Constant) and z.value == 0:
@@ -471,13 +543,138 @@ def helper_preserves_value(f):
                 while q is not None and q is not f.node:
                     par = getattr(q, '_parent', None)
                     if isinstance(par, ast.If) and any(q is s for s in par.body) and \
-                            ('%s.imag == 0' % p) in norm(par.test, 300):
+                            ('%s.%s == 0' % (p, part)) in norm(par.test, 300):
                         guarded = True
                     q = par
                 if guarded:
                     continue
         return False
     return True
+
+
+# --------------------------------------------------------------------------- F-R8
+# Error amplification without guard digits.  The fp context computes in hardware doubles: there is no
+# working precision to raise.  A construct whose conditioning multiplies the 2^-53 rounding error of an
+# intermediate by an UNBOUNDED function of the argument cannot meet the 2^-48 bound for all doubles:
+#   P  z ** w through exp(w * log z) (Python's complex power, and float ** for negative bases): the
+#      error of log z is multiplied by |w log z|
+#   S  cmath.sin / cmath.cos of pi * complex(r, y): exp(pi |y|) turns the rounding error of the product
+#      pi * y, which is |pi y| * 2^-53, into a relative error
+#   R  f(1 / z) with f' singular at +-1 (acos, asin, acosh, atanh): the rounding error of the reciprocal is
+#      divided by sqrt(1 - t^2)
+#   E  x ** (1/k) with the exponent a rounded non-dyadic constant: error |log x| * 2^-54, unless the result
+#      is corrected afterwards (a Newton step)
+SINGULAR_AT_ONE = ('acos', 'asin', 'acosh', 'atanh')
+
+
+def check_amplification(run, ix):
+    m2 = ix.module(MATH2)
+    n = 0
+    # P: the power binding
+    for name, value, st, guards in m2.toplevel_assigns:
+        if name == 'pow' and isinstance(value, ast.Call):
+            for x in ast.walk(value):
+                if isinstance(x, ast.BinOp) and isinstance(x.op, ast.Pow) or \
+                        (isinstance(x, ast.Attribute) and norm(x) == 'operator.pow'):
+                    n += 1
+                    run.fail(F('F-R8', MATH2, 'pow', norm(x),
+                               'power is the hardware `**`: for a complex base/exponent (and a negative base with a '
+                               'non-integer exponent) it is exp(w*log z) in double precision, whose relative error '
+                               '|w log z| * 2^-53 exceeds 2^-48 as soon as |w log z| > 32', line=st.lineno))
+    # S and E inside the functions
+    for f in m2.funcs.values():
+        if not isinstance(f.node, ast.FunctionDef):
+            continue
+        for x in _walk_own(f.node):
+            if isinstance(x, ast.Assign) and isinstance(x.value, ast.BinOp) and isinstance(x.value.op, ast.Mult) and \
+                    'pi' in (norm(x.value.left), norm(x.value.right)) and '.imag' in norm(x.value) and \
+                    any(isinstance(c, ast.Call) and norm(c.func) in ('cmath.sin', 'cmath.cos') for c in ast.walk(f.node)):
+                n += 1
+                run.fail(F('F-R8', MATH2, f.qualname, x,
+                           'the imaginary part is multiplied by the rounded pi and fed to cmath.sin/cos: the relative '
+                           'error of the result is |pi*Im z| * 2^-53, above 2^-48 for |Im z| > 10'))
+            if isinstance(x, ast.BinOp) and isinstance(x.op, ast.Pow) and isinstance(x.right, ast.BinOp) and \
+                    isinstance(x.right.op, ast.Div) and isinstance(x.right.left, ast.Constant) and \
+                    isinstance(x.right.right, ast.Constant) and x.right.right.value not in (1, 2, 4, 8, 16):
+                n += 1
+                st = x
+                while not isinstance(st, ast.stmt):
+                    st = st._parent
+                tgt = st.targets[0].id if isinstance(st, ast.Assign) and isinstance(st.targets[0], ast.Name) else None
+                corrected = tgt is not None and any(
+                    isinstance(y, ast.AugAssign) and norm(y.target) == tgt and isinstance(y.op, ast.Sub) and
+                    tgt in norm(y.value) for y in _walk_own(f.node))
+                if corrected:
+                    run.ok('F-R8', '%s: %s is corrected by a Newton step' % (f.qualname, norm(x)))
+                else:
+                    run.fail(F('F-R8', MATH2, f.qualname, st,
+                               'the exponent %s is a rounded constant: the result is off by |log x| * 2^-54 relative '
+                               '(1.3e-14 at 1e300) and is not corrected afterwards' % norm(x.right)))
+    # lambdas bound at module level (cbrt = _mathfun(lambda x: x**(1./3), ...))
+    for name, value, st, guards in m2.toplevel_assigns:
+        if name in NOT_ELEMENTARY or name == 'pow':
+            continue
+        for x in ast.walk(value):
+            if isinstance(x, ast.Lambda):
+                for y in ast.walk(x.body):
+                    if isinstance(y, ast.BinOp) and isinstance(y.op, ast.Pow) and isinstance(y.right, ast.BinOp) and \
+                            isinstance(y.right.op, ast.Div) and isinstance(y.right.right, ast.Constant) and \
+                            y.right.right.value not in (1, 2, 4, 8, 16):
+                        n += 1
+                        run.fail(F('F-R8', MATH2, name, st,
+                                   'the exponent %s is a rounded constant: the result is off by |log x| * 2^-54 '
+                                   'relative (1.3e-14 at 1e300) and is not corrected' % norm(y.right)))
+    # R: generic inverse functions
+    rel = 'mpmath/functions/functions.py'
+    for f in ix.module(rel).funcs.values():
+        if f.parent is not None:
+            continue
+        for x in _walk_own(f.node):
+            if isinstance(x, ast.Call) and isinstance(x.func, ast.Attribute) and norm(x.func.value) == 'ctx' and \
+                    x.func.attr in SINGULAR_AT_ONE and len(x.args) == 1 and isinstance(x.args[0], ast.BinOp) and \
+                    isinstance(x.args[0].op, ast.Div) and norm(x.args[0].left) == 'ctx.one':
+                n += 1
+                run.fail(F('F-R8', rel, f.qualname, x,
+                           '%s(1/z): the derivative of %s is singular at +-1, so the 2^-53 rounding error of the '
+                           'reciprocal is divided by sqrt(1 - 1/z^2); on the fp context (no guard digits) the result '
+                           'near |z| = 1 loses up to half of its digits' % (x.func.attr, x.func.attr)))
+    if n < 5:
+        raise AnalysisError('F-R8: amplification constructs not found (%d)' % n)
+
+
+# --------------------------------------------------------------------------- F-R7
+def check_no_fallthrough(run, ix):
+    """A function of the fp layer that returns a value on some path returns (or raises) on EVERY path:
+    falling off the end hands the caller None instead of a float or complex (fp.sinpi(1e308): the
+    quadrant chain `if n == 0 .. if n == 3` was not exhaustive once n had become nan).  Path-sensitive
+    only in the structure (both branches of every test are taken to be feasible), so a chain of ifs
+    must end in an unconditional return / raise."""
+    from ..flow import FlowAnalysis
+
+    class Falls(FlowAnalysis):
+        def join(self, a, b):
+            return a or b
+    n = 0
+    for rel in (MATH2, CTXFP):
+        for f in ix.module(rel).funcs.values():
+            if not isinstance(f.node, ast.FunctionDef):
+                continue
+            own = list(_walk_own(f.node))
+            if not any(isinstance(x, ast.Return) and x.value is not None for x in own):
+                continue
+            if any(isinstance(x, (ast.Yield, ast.YieldFrom)) for x in own):
+                continue
+            n += 1
+            out = Falls().run(f.node.body, True)
+            if out.normal is None:
+                run.ok('F-R7')
+            else:
+                last = f.node.body[-1]
+                run.fail(F('F-R7', rel, f.qualname, last,
+                           'the function returns a value on some paths but can fall off its end after this '
+                           'statement: the caller receives None, not a float or complex'))
+    if n < 60:
+        raise AnalysisError('F-R7: only %d value-returning functions found in the fp layer' % n)
 
 
 # --------------------------------------------------------------------------- F-R4
@@ -507,6 +704,21 @@ def check_fp_table(run, ix):
                                'math2.%s' % (slot, x, want)))
                 else:
                     run.ok('F-R4', 'FPContext.%s = math2.%s' % (slot, x))
+    # every elementary function the property names has a slot of its own on the fp context
+    bound = set()
+    for st in ci.node.body:
+        if isinstance(st, ast.Assign):
+            for t in st.targets:
+                bound.add(norm(t))
+        elif isinstance(st, ast.FunctionDef):
+            bound.add(st.name)
+    for slot in REQUIRED_SLOTS:
+        if slot in bound:
+            run.ok('F-R4')
+        else:
+            run.fail(F('F-R4', CTXFP, 'FPContext', 'slot %s' % slot,
+                       'the fp context has no `%s`: the generic functions built on it (e.g. asech = acosh(1/z)) raise '
+                       'AttributeError instead of returning a float or complex' % slot, line=ci.node.lineno))
     for slot, want in (('mpf', 'float'), ('mpc', 'complex')):
         v = ci.assigns.get(slot)
         if v is not None and norm(v) == want:
@@ -587,10 +799,14 @@ def run(run, ix, tier):
     run.rule('F-R3', floor=15)
     run.rule('F-R4', floor=25)
     run.rule('F-R5', floor=1)
-    run.rule('F-R6', floor=2)
+    run.rule('F-R6', floor=5)
+    run.rule('F-R7', floor=60)
+    run.rule('F-R8', floor=5, desc='error amplification without guard digits')
     check_wrappers(run, ix)
     binds = check_bindings(run, ix)
     nslots = check_fp_table(run, ix)
+    check_no_fallthrough(run, ix)
+    check_amplification(run, ix)
     nk = check_no_mp_numbers(run, ix)
     run.stats['math2_bindings'] = len(binds)
     run.stats['fp_slots'] = nslots
